@@ -16,22 +16,25 @@ EXTENDS StackObs
 CONSTANTS MaxDepth, Emit
 
 LayerKinds == {"map_tag", "map_raise", "map_efn_tag", "map_efn_raise", "map_efn_reraise", "map_both",
-               "flat_tag", "flat_later", "flat_nonfuture", "flat_none", "flat_efn_fail",
+               "flat_tag", "flat_later", "flat_nonfuture", "flat_none", "flat_efn_fail", "flat_efn_nonfuture",
+               "map_fn_none", "map_efn_none",
                "retry2", "retry3", "poll_first", "poll_second",
                "throttle1", "throttle_none", "timeout", "cos"}
 ScriptSet == {<<0>>, <<1, 0>>, <<1, 1, 1>>, <<2>>, <<1, 2>>, <<1, 1, 0>>}
 
 LayerEv(kind, i) ==
-  LET t == CASE kind \in {"map_tag", "map_raise", "map_efn_tag", "map_efn_raise", "map_efn_reraise", "map_both"} -> "map"
-             [] kind \in {"flat_tag", "flat_later", "flat_nonfuture", "flat_none", "flat_efn_fail"} -> "flat_map"
+  LET t == CASE kind \in {"map_tag", "map_raise", "map_efn_tag", "map_efn_raise", "map_efn_reraise", "map_both",
+                          "map_fn_none", "map_efn_none"} -> "map"
+             [] kind \in {"flat_tag", "flat_later", "flat_nonfuture", "flat_none", "flat_efn_fail", "flat_efn_nonfuture"} -> "flat_map"
              [] kind \in {"retry2", "retry3"} -> "retry"
              [] kind \in {"poll_first", "poll_second"} -> "poll"
              [] kind \in {"throttle1", "throttle_none"} -> "throttle"
              [] kind = "timeout" -> "timeout" [] OTHER -> "cos"
       fn == CASE kind \in {"map_tag", "map_both", "flat_tag"} -> 1 [] kind = "map_raise" -> 2
-              [] kind = "flat_nonfuture" -> 4 [] kind = "flat_later" -> 5 [] OTHER -> 0
+              [] kind = "flat_nonfuture" -> 4 [] kind = "flat_later" -> 5 [] kind = "map_fn_none" -> 6 [] OTHER -> 0
       efn == CASE kind \in {"map_efn_tag", "map_both"} -> 1 [] kind = "map_efn_raise" -> 2
-               [] kind = "map_efn_reraise" -> 3 [] kind = "flat_efn_fail" -> 4 [] OTHER -> 0
+               [] kind = "map_efn_reraise" -> 3 [] kind = "flat_efn_fail" -> 4 [] kind = "flat_efn_nonfuture" -> 5
+               [] kind = "map_efn_none" -> 6 [] OTHER -> 0
       a == CASE kind = "retry2" -> 2 [] kind = "retry3" -> 3 [] kind = "throttle1" -> 1 [] OTHER -> -1
   IN Ev("Layer", "-", "main", 0, -1, i, a, 100, 0, t, <<fn, efn, IF kind = "poll_second" THEN 2 ELSE IF kind = "poll_first" THEN 1 ELSE 0>>)
 
